@@ -10,7 +10,11 @@
   the left side; if it is an array (an object) apply the right-hand side to the elements and drop the nulls, else null",
   `|` and `.` feed the value of the left side to the right side, `&&`, `||`, `!` use the truth test written out in
   `truthy`, ordering comparisons are defined on two numbers and null otherwise, `let` extends the scope lexically.
-  Builtins, arithmetic, equality, literal decoding and string slices are the model's (they are C02, C05, C20, C18, C12B).
+  Builtins, arithmetic, equality, literal decoding and string slices are the model's (they are C02, C05, C20, C18, C12B);
+  `callSem` tells the builtins apart by the node constructors of the parser's builtin table (see the header of
+  `Proofs/C01CSem.lean` for the exact list of what is shared).  The clauses of `Sem` that are DECISIONS taken from the Go
+  program rather than from the specification text are listed, with the Go behaviour, in `Properties/C01E.lean`, which
+  also relates `Sem` to `SemSpec` (the null rule of multi-select as the specification words it).
 
   * `search_eq_Sem` — **the theorem**: `WellPrec t`, `lexAll e = flatten t ++ [end]` ⟹ `search e d = Sem t d d []`, for
     EVERY tree of the grammar (the whole language: core, `let`, function calls with `&` arguments), every document, no
@@ -298,8 +302,10 @@ example : Sem (.filt .icur .icur .icur) .null (.arr .plain [.bool true, .bool fa
     .ok (.arr .plain [.bool true, .str [1]]) :=
   Sem_filter_map _ _ _ _ _ _ [.bool true, .bool false, .null, .str [1]] id id rfl (fun _ _ => rfl) (fun _ _ => rfl)
 
-/-- **null for wrongly-typed selections**: a projection whose left side is not an array (resp. object), an index or a
-    slice of a non-array, a member of a non-object: null, never an error -/
+/-- **null for wrongly-typed selections**: a projection `[*]`, `[]`, `[?c]` or an index whose left side is not an array,
+    a projection `.*` or a member selection whose left side is not an object: null, never an error.
+    (No conjunct about SLICES here — an earlier version of this comment claimed one.  A slice of a string is a string,
+    not null; the slice clauses are `C01E.Sem_slice_wrong_type_null` and `C01E.Sem_slice_string`.) -/
 theorem Sem_wrong_type_null (L R C : PTree) (n : Token) (k : Bytes) (root cur : Val) (env : Env) (a : Val)
     (hL : Sem L root cur env = .ok a) :
     ((∀ t xs, a ≠ .arr t xs) → Sem (.star L R) root cur env = .ok .null ∧ Sem (.flat L R) root cur env = .ok .null ∧
